@@ -6,6 +6,7 @@ import (
 	"go/token"
 	"go/types"
 	"math"
+	"sort"
 	"strings"
 
 	"golang.org/x/tools/go/ssa"
@@ -24,7 +25,7 @@ func init() {
 	register(&Rule{
 		Prop: "C13",
 		Explanation: "\"Context only re-ranks\" decided as non-interference on the SSA form of everything reachable from SearchUniversal: (O-1) values derived from SearchOptions.ContextBoosts (interprocedural may-taint, with implicit flow through branches) may reach only the per-term boost table, the VALUE component of the score accumulator and result scores; they never reach a function that produces the term list, never the key of the accumulator, never the Command of a result, and no accumulator update, result append, term-list operation or return is control-dependent on a boost-derived condition (ordering and the post-sort truncation may depend on it: that is re-ranking); " +
-			"(O-2) the boost looked up for a term multiplies only that term's contributions: the boost table and the postings are indexed by the same term value, the pair is handed to the scoring helper, and inside it the boost occurs only as a factor of a product that is ADDED to the accumulator (never subtracted, negated or used as divisor); context boosts are copied into an empty table and later emphasis only raises entries (guarded max), so a context boost is never replaced by a smaller factor; (O-3) a looked-up boost is used only behind `ok && b > 0`, otherwise the factor is the constant 1; (O-4) nothing reachable from the post-scoring stages reads ContextBoosts; (O-5) AnalyzeDirectory finalises every successful listing: project types are de-duplicated by the first-occurrence idiom, 'generic' is appended exactly when none was found, no map iteration with an order-sensitive effect is reachable, and every boost constant is finite and >= 1. Monotonicity as arithmetic needs idf, bm25 >= 0 (C01 O-6) and is not decided here.",
+			"(O-2) the boost looked up for a term multiplies only that term's contributions: the boost table and the postings are indexed by the same term value, the pair is handed to the scoring helper, and inside it the boost occurs only as a factor of a product that is ADDED to the accumulator (never subtracted, negated or used as divisor); context boosts are copied into an empty table and later emphasis only raises entries (guarded max), so a context boost is never replaced by a smaller factor; (O-3) a looked-up boost is used only behind `ok && b > 0`, otherwise the factor is the constant 1; (O-4) nothing reachable from the post-scoring stages reads ContextBoosts, and the similarity re-ranker, which works on a rank prefix of the boosted order, returns exactly the list it blended (no unblended tail whose membership would depend on the boosts); (O-5) AnalyzeDirectory finalises every successful listing: project types are de-duplicated by the first-occurrence idiom, 'generic' is appended exactly when none was found, no map iteration with an order-sensitive effect is reachable, and every boost constant is finite and >= 1. Monotonicity as arithmetic needs idf, bm25 >= 0 (C01 O-6) and is not decided here.",
 		NotDecided:  []string{"monotonicity of scores in the boost as arithmetic (needs non-negative idf and field scores; sign abstraction under C01 O-6)", "content of the marker-file tables", "the legacy scorer behind `wtf pipeline`, which tests score > 0 after multiplying by the boost (equivalent for positive factors; an arithmetic argument)"},
 		Assumptions: []string{"boost factors supplied by callers are >= 1 (the analyser's constants are checked)"},
 		Run:         runC13,
@@ -685,6 +686,83 @@ func c13Later(c *Ctx) {
 		r.OK("O-4", "post-scoring#context-independent", c.P.Pos(ap.Pos()), fmt.Sprintf("%d functions reachable from applyPostScoringBoosts: none reads ContextBoosts", len(scope)))
 	}
 	r.Floor("O-4", "functions reachable from the post-scoring stages", len(scope), 10)
+	c13Rerank(c)
+}
+
+// c13Rerank: the similarity re-ranker works on a rank prefix of the boosted
+// order. Which commands are in that prefix depends on the context boosts, so
+// a command returned without having been blended would have a score that
+// changes with a boost on a word it does not contain. Hence: the list the
+// re-ranker returns is the very list it blended — no unblended tail.
+func c13Rerank(c *Ctx) {
+	r := c.R
+	var fn *ssa.Function
+	for _, cand := range shippedFuncs(c) {
+		if pk := c.P.PkgOfFunc(cand); pk == nil || pk.PkgPath != dbPkg || resultIdx(cand) < 0 {
+			continue
+		}
+		if len(callsMatching(cand, false, func(n string) bool { return strings.HasSuffix(n, "nlp.TFIDFSearcher).Search") })) > 0 {
+			fn = cand
+		}
+	}
+	if !r.Anchor("O-4", "database re-ranker (calls TFIDFSearcher.Search, returns []SearchResult)", fn != nil) {
+		return
+	}
+	fk := load.FuncKey(fn)
+	sx := symx.New(c.P.IsRepoFunc)
+	f := sx.Of(fn)
+	// the slices whose elements' Score is written
+	blended := map[string]token.Pos{}
+	ssau.ForEachInstr(fn, false, func(in ssa.Instruction) {
+		st, ok := in.(*ssa.Store)
+		if !ok {
+			return
+		}
+		fa, ok := st.Addr.(*ssa.FieldAddr)
+		if !ok || ssau.FieldName(fa) != "Score" {
+			return
+		}
+		if ia, ok := fa.X.(*ssa.IndexAddr); ok && srSlice(ia.X.Type()) {
+			blended[f.E(ia.X)] = st.Pos()
+		}
+	})
+	if len(blended) == 0 {
+		r.OK("O-4", fk+"#returns-what-it-blends", c.P.Pos(fn.Pos()), "the re-ranker writes no score")
+		return
+	}
+	ri := resultIdx(fn)
+	// returns reached without any blending (early exits) hand back the input
+	for _, ret := range ssau.ReturnsOf(fn) {
+		rv := ssau.ResultValue(ret, ri)
+		e := f.E(rv)
+		_, same := blended[e]
+		if !same {
+			// an exit that no blending store can reach
+			reached := false
+			for _, b := range fn.Blocks {
+				for _, in := range b.Instrs {
+					if st, ok := in.(*ssa.Store); ok {
+						if fa, ok := st.Addr.(*ssa.FieldAddr); ok && ssau.FieldName(fa) == "Score" {
+							if b == ret.Block() || ssau.Reachable(b, ret.Block(), nil) {
+								reached = true
+							}
+						}
+					}
+				}
+			}
+			same = !reached
+		}
+		r.Check(same, "O-4", fk+"#returns-what-it-blends:"+c17ExitName(c, fn, ret), c.P.Pos(ret.Pos()), "the returned list is the list whose scores were blended", "the re-ranker blends similarity into "+strings.Join(keysOf(blended), ", ")+" but returns "+f.Plain(rv)+": results beyond the blended prefix keep their unblended score, and which commands those are depends on the context boosts")
+	}
+}
+
+func keysOf(m map[string]token.Pos) []string {
+	var out []string
+	for k := range m {
+		out = append(out, k)
+	}
+	sort.Strings(out)
+	return out
 }
 
 func c13Analyzer(c *Ctx, sx *symx.Ctx) {
